@@ -282,6 +282,9 @@ func (n *InfluxQLNode) getCreateFn(kind reflect.Kind) (createReduceContextFunc, 
 	n.currentKind = kind
 	createFn, err := determineReduceContextCreateFn(n.n.Method, kind, n.n.ReduceCreater)
 	if err != nil {
+		// Forget the creator cached for the previous kind: otherwise the next point of
+		// this (unsupported) kind would get a reduce context of the wrong type.
+		n.createFn = nil
 		return nil, errors.Wrapf(err, "invalid influxql func %s with field %s", n.n.Method, n.n.Field)
 	}
 	n.createFn = createFn
